@@ -125,6 +125,8 @@ D = {
            "a cycle not reachable from any acyclic definition, one of whose members also refers to an acyclic definition that hash order puts first"),
  "C09-4": ("src/bash.rs write_subword_fn: the loop variable of the within-word completion loop renamed to `fallback_level` (global in bash: overwrites the caller's `||` level)",
            "a within-word expression in a non-last `||` branch, a typed prefix nothing of that level extends, the wanted candidate in the next branch"),
+ "C10-4": ("src/regex.rs: RegexInput gets a hand-written PartialEq/Eq that ignores the span while Hash stays derived (and hashes the span): equality coarser than the hash on the key of the randomly seeded RegexInternPool",
+           "the same within-word expression written at many source positions; the --regex file compared across fresh processes (about 1/128 per pair per run)"),
  "C11-4": ("src/check.rs from_grammar: the loop that expands definitions into one another moved before the two specialisation passes",
            "a nonterminal with a plain and a target-shell definition referred to from inside another definition"),
  "C12-4": ("src/bash.rs: the mode word `matches` of `_<cmd>_subword` renamed to `match` at the call and the early return, not in the stop-rule guard",
